@@ -34,6 +34,10 @@ def scripts(rng, tmpdir):
     S.append(('property', ['pt 0 set ' + h('a.b=1'), 'pt 0 set ' + h('a.list[3]=x'), 'pt 0 set ' + h('a.list[1+]=y'), 'pt 0 set ' + h('m.k1.k2.k3=deep'),
                            'pt 0 keys ' + h('a'), 'pt 0 get ' + h('a.b'), 'pt 0 type ' + h('a.list'), 'pt 0 count ' + h('a.list'), 'pt 0 get_subtree ' + h('m.k1'), 'pt 0 quote_key ' + h('k.e y'), 'pt 1 copy 0', 'pt 1 digest', 'pt 0 delete ' + h('a.list[0]'),
                            'pt 0 set_subtree ' + h('n{}'), 'pt 0 export', 'pt 1 import ' + h('x: [1, 2, {y: z}]\nw: ~\n'), 'pt 1 digest', 'pt 0 digest', 'pt 0 free', 'pt 1 free']))
+    # lists filled exactly to their capacity (8, 16): the next insert / append has to grow the vector
+    S.append(('property-list-growth', ['pt 0 set ' + h('l[%d]=v%d' % (i, i)) for i in range(8)] + ['pt 0 set ' + h('l[3+]=new'), 'pt 0 digest'] +
+              ['pt 0 set ' + h('l[+]=a%d' % i) for i in range(7)] + ['pt 0 set ' + h('l[+]=grow'), 'pt 0 set ' + h('l[0+]=first'), 'pt 0 digest',
+               'pt 1 set ' + h('m[7]=x'), 'pt 1 set ' + h('m[2+]=y'), 'pt 1 set ' + h('m[+].k[+]=z'), 'pt 1 digest', 'pt 0 free', 'pt 1 free']))
     # many keys: forces the hash table to grow
     S.append(('property-rehash', ['pt 0 set ' + h('k%d=%d' % (i, i)) for i in range(14)] + ['pt 0 digest', 'pt 0 free']))
     # calibration
@@ -57,6 +61,19 @@ def scripts(rng, tmpdir):
     return S
 
 
+def random_scripts(rng, count):
+    from props import c13
+    S = []
+    for i in range(count):
+        if i % 2 == 0:
+            lines = [l for l in c13.gen_history(rng, rng.randint(15, 40)) if not l.endswith(' live')]
+            S.append(('random-property-%d' % i, lines))
+        else:
+            lines, _ = c15.gen_history(rng, rng.randint(15, 40))
+            S.append(('random-vnadata-%d' % i, lines))
+    return S
+
+
 def run_one(args):
     exe, lines = args
     return vlib.run_lines(exe, lines + ['cal live'], timeout=120)
@@ -74,7 +91,8 @@ def run(chk):
     tmpdir = tempfile.mkdtemp(prefix='verif-c12-')
     fired_total = 0
     try:
-        for name, lines in scripts(rng, tmpdir):
+        allscripts = scripts(rng, tmpdir) + random_scripts(rng, 4 if quick else 60)
+        for name, lines in allscripts:
             # baseline with allocation counts
             probe = []
             for l in lines:
@@ -95,6 +113,8 @@ def run(chk):
                 ks = range(1, K[i] + 1)
                 if quick and K[i] > 12:
                     ks = list(range(1, 9)) + sorted(rng.sample(range(9, K[i] + 1), 4))
+                if name.startswith('random-') and K[i] > 0 and rng.random() < (0.6 if quick else 0.0):
+                    ks = [rng.randint(1, K[i])]
                 for k in ks:
                     # jobs run in parallel: every job gets its own file name
                     own = [x.replace(h(os.path.join(tmpdir, 'f.vnacal'))[1:], h(os.path.join(tmpdir, 'f%d.vnacal' % len(jobs)))[1:]) for x in lines]
@@ -140,7 +160,7 @@ def run(chk):
     finally:
         shutil.rmtree(tmpdir, ignore_errors=True)
     chk.extra['faults_fired'] = fired_total
-    chk.rule = ('six scripted histories (vnadata incl. per-frequency z0 and conversions; property tree incl. copy, export/import and hash growth; TE10 a/b calibration with '
+    chk.rule = ('seven scripted histories and %d random ones from the C13 / C15 generators (scripted: ' % (4 if quick else 60) + 'vnadata incl. per-frequency z0 and conversions; property tree incl. copy, export/import and hash growth; TE10 a/b calibration with '
                 'vector/unknown/correlated parameters, properties, save and load; E12 with measurement-error model); every allocation index of every call failed once '
                 '(quick: calls with more than 12 allocations are sampled); distinct = (script, call, allocation index) with the fault actually fired')
     chk.samples = [['fault 2', 'vd 0 resize 1 3 3 4', 'allocs', 'vd 0 resize 1 3 3 4']]
